@@ -220,6 +220,24 @@ def index_bounded_by_type(prog, s):
             if st["k"] == "assign" and not st["place"]["p"] and st["place"]["l"] == idx]
     if len(defs) != 1 or defs[0].get("k") != "cast" or defs[0].get("kind") != "IntToInt":
         return False
+    # `*self as usize` for a field-less enum: the cast operand is the discriminant of a place of that enum type
+    src = defs[0]["op"].get("move") or defs[0]["op"].get("copy")
+    if src and not src["p"]:
+        sdefs = [st["rv"] for bb in body["blocks"] for st in bb["stmts"]
+                 if st["k"] == "assign" and not st["place"]["p"] and st["place"]["l"] == src["l"]]
+        if len(sdefs) == 1 and sdefs[0].get("k") == "discr":
+            pl = sdefs[0]["place"]
+            t = prog.types[body["locals"][pl["l"]]]
+            for pe in pl["p"]:
+                if pe[0] == "deref" and t.get("k") == "ref":
+                    t = prog.types[t["ty"]]
+                else:
+                    t = None
+                    break
+            if t and t.get("k") == "adt" and t["adt"] in prog.adts:
+                vs = prog.adts[t["adt"]]["variants"]
+                ds = [int(v["discr"]) if v.get("discr") is not None else i for i, v in enumerate(vs)]
+                return all(0 <= d < n for d in ds)
     ft = prog.types[defs[0]["from"]]
     if ft.get("k") == "bool":
         return n >= 2
@@ -326,9 +344,9 @@ def version_component_plus_one(prog, s):
 
     def is_version(l):
         return prog.ty_str(body["locals"][l]).lstrip("&").replace("mut ", "") == "Version"
-    m = re.search(r"Overflow\(Add, (?:copy|move) \((?:\*)?_(\d+)\.(\d+): u64\), const 1_u64\)", s["detail"])
+    m = re.search(r"Overflow\(Add, (?:copy|move) \((?:\(\*_(\d+)\)|\*?_(\d+))\.(\d+): u64\), const 1_u64\)", s["detail"])
     if m:
-        return is_version(int(m.group(1)))
+        return is_version(int(m.group(1) or m.group(2)))
     m = re.search(r"Overflow\(Add, (?:copy|move) _(\d+), const 1_u64\)", s["detail"])
     if not m:
         return False
